@@ -508,7 +508,16 @@ class SimulationStep(ExecutionStep):
     ):
         if n < 1:
             raise ValueError("Need at least one replicate in SimulationStep")
-        return cls(n=n, seed=seed)
+        solver = ExecutionStep._canonicalize_solver(solver)
+        tool_options = ExecutionStep._canonicalize_tool_options(tool_options)
+        return cls(
+            n=n,
+            seed=seed,
+            solver=solver,
+            solver_rtol=solver_rtol,
+            solver_atol=solver_atol,
+            tool_options=tool_options,
+        )
 
     def replace(self, **kwargs) -> SimulationStep:
         """Derive a new SimulationStep with new properties"""
